@@ -83,6 +83,9 @@ def run(ctx):
 def leg_d(ctx, q, W, X):
     ctx.design("Form/Multipart.tla", "Multipart_quick.cfg" if q else "Multipart.cfg", workers=W, timeout=1500, heap="6g",
                deadlock_off=True, extra=X, note="bodies = 4 starting points x all tails over {CR,LF,-,B,X,(H)} x every chunking x declared length")
+    if not q:
+        ctx.design("Form/Multipart.tla", "Multipart_B8.cfg", workers=W, timeout=1500, heap="6g", deadlock_off=True, extra=X,
+                   note="boundary B only, tails up to 8")
     ctx.design("Form/Multipart.tla", "Multipart_limits.cfg", workers=W, timeout=600, deadlock_off=True, extra=X,
                note="part-size limit 0..2 around the part sizes")
     for cfg, inv in (("Multipart_mut_restart0.cfg", "Progress"), ("Multipart_mut_dropprefix.cfg", "Progress"),
@@ -143,7 +146,7 @@ def leg_b(ctx, q):
             # big shards are split so that one JVM handles <= ~60k lines
             shards = split(path, 60000)
             for sh in shards:
-                rej = c.validate("Form/FormTrace.tla", "FormTrace.cfg", sh, max_rejects=maxrej, env=pv.JENV, timeout=1500)
+                rej = c.validate("Form/FormTrace.tla", "FormTrace.cfg", sh, max_rejects=maxrej, env=pv.JENV, timeout=1500, heap="3g")
                 for x in rej:
                     sg = signature(x["event"], side)
                     with pv._lock:
